@@ -133,11 +133,10 @@ def Compat (wpw rpw : Option Bytes) (s? : Option Y) : Prop :=
 /-- the members of one deployment are read back into exactly that deployment's slots -/
 theorem read_writeDep {A : Aead} (hA : A.Lawful) {C : Codec Y} (hC : C.Lawful) (wpw rpw : Option Bytes)
     {rnd : Nat → Bytes × Bytes} (hr : rndWf rnd) (secrets : List (Name × Y)) (gens : Option (List (Name × Int)))
-    (k : Nat) (d : Option Name × Y) (st : RState Y) (hv : validName (depName d) = true)
+    (k : Nat) (d : Option Name × Y) (st : RState Y) (hdot : '.' ∉ depName d)
     (hf : Fresh st (depName d)) (hc : Compat wpw rpw (alookup (depName d) secrets)) :
     readMembers A C rpw st (members (writeDep A C wpw rnd secrets gens k d).1) =
       .ok (stAfter st secrets gens [d]) := by
-  have hdot := validName_dotfree hv
   obtain ⟨hf1, hf2, hf3⟩ := hf
   -- the generation member, read in any state that keeps `metas` of `st`
   have hmeta : ∀ st' : RState Y, st'.metas = st.metas →
@@ -203,7 +202,7 @@ theorem fresh_stAfter {st : RState Y} {secrets : List (Name × Y)} {gens : Optio
 theorem read_writeDeps {A : Aead} (hA : A.Lawful) {C : Codec Y} (hC : C.Lawful) (wpw rpw : Option Bytes)
     {rnd : Nat → Bytes × Bytes} (hr : rndWf rnd) (secrets : List (Name × Y)) (gens : Option (List (Name × Int))) :
     ∀ (ds : List (Option Name × Y)) (k : Nat) (st : RState Y),
-      (∀ d ∈ ds, validName (depName d) = true) → (ds.map depName).Nodup →
+      (∀ d ∈ ds, '.' ∉ depName d) → (ds.map depName).Nodup →
       (∀ d ∈ ds, Fresh st (depName d)) → (∀ d ∈ ds, Compat wpw rpw (alookup (depName d) secrets)) →
       readMembers A C rpw st (members (writeDeps A C wpw rnd secrets gens k ds)) =
         .ok (stAfter st secrets gens ds)
